@@ -3,6 +3,7 @@ import PytmeModel.Proofs.C07
 import Mathlib.Tactic.Ring
 import Mathlib.Tactic.Linarith
 import Mathlib.Tactic.LinearCombination
+import Mathlib.Tactic.FieldSimp
 import Mathlib.Algebra.Order.Field.Basic
 
 /-! # C07 — rotation sets are proper, complete, and cover orientation space as stated
@@ -13,6 +14,9 @@ the closest-set lookup is a first argmin for every table and request; Euler sequ
 letters, extrinsic or intrinsic) are proper, `zyx` is determined by its entries off gimbal lock;
 the cone axis keeps inner product `cos a · cos b`; the QR branch post-processing yields proper
 rotations with the identity first.
+Deepened: `rotation_aligning_vectors` (Rodrigues matrix: proper, maps `u` onto `v`, fixes the axis,
+trace, group law, quaternion link, antiparallel ⇒ zero axis), `to(from(R)) = R` for every proper rotation off
+gimbal lock, the `convention` string dispatch, cone sampling about a general axis (`V · R_zyx`).
 
 NOT carried (see the claim text): *every orientation of SO(3) is within the nominal angle of a
 member* — a covering statement about a continuous space for concrete finite sets; explored
@@ -290,10 +294,229 @@ theorem euler_zyx_injective_off_gimbal (ca sa cb sb cc sc ca' sa' cb' sb' cc' sc
 
 end eulerField
 
+section eulerRoundTrip
+variable {α : Type} [Field α]
+
+/-- `to(from(R)) = R` as rotation matrices: every proper rotation off gimbal lock (`cos b ≠ 0`, with
+`cos² b = R00² + R01²`) is reproduced exactly by the `zyx` matrix of the cosines / sines read off its
+entries — all nine entries, although only five are read -/
+theorem euler_zyx_round_trip (R : M3 α) (cb : α) (h : R.Proper) (hcb : cb ≠ 0)
+    (hsq : cb * cb = R.a00 * R.a00 + R.a01 * R.a01) : eulerZYXRoundTrip R cb = R := by
+  obtain ⟨a, b, c, d, e, f, g, h', i⟩ := R
+  obtain ⟨⟨h1, h2⟩, h3⟩ := h
+  simp only [M3.tr, M3.mul, M3.id, M3.mk.injEq] at h1 h2
+  simp only [M3.det] at h3
+  obtain ⟨p1, p2, p3, p4, p5, p6, p7, p8, p9⟩ := h1
+  obtain ⟨k1, k2, k3, k4, k5, k6, k7, k8, k9⟩ := h2
+  simp only [eulerZYXRoundTrip, eulerZYXFrom, eulerZYX, rotX, rotY, rotZ, M3.mul, M3.mk.injEq] at hsq ⊢
+  refine ⟨?_, ?_, ?_, ?_, ?_, ?_, ?_, ?_, ?_⟩ <;> (field_simp; grind)
+
+/-- the three pairs read off a proper rotation are unit `(cos, sin)` pairs (they are angles) -/
+theorem euler_zyx_from_unit (R : M3 α) (cb : α) (h : R.Proper) (hcb : cb ≠ 0)
+    (hsq : cb * cb = R.a00 * R.a00 + R.a01 * R.a01) :
+    let e := eulerZYXFrom R cb
+    e.1 * e.1 + e.2.1 * e.2.1 = 1 ∧ e.2.2.1 * e.2.2.1 + e.2.2.2.1 * e.2.2.2.1 = 1 ∧
+      e.2.2.2.2.1 * e.2.2.2.2.1 + e.2.2.2.2.2 * e.2.2.2.2.2 = 1 := by
+  obtain ⟨a, b, c, d, e, f, g, h', i⟩ := R
+  obtain ⟨⟨h1, h2⟩, h3⟩ := h
+  simp only [M3.tr, M3.mul, M3.id, M3.mk.injEq] at h1 h2
+  obtain ⟨p1, p2, p3, p4, p5, p6, p7, p8, p9⟩ := h1
+  obtain ⟨k1, k2, k3, k4, k5, k6, k7, k8, k9⟩ := h2
+  simp only [eulerZYXFrom] at hsq ⊢
+  refine ⟨?_, ?_, ?_⟩ <;> (field_simp; grind)
+
+/-- `from(to(angles)) = angles` at the level of cosines / sines, whenever `cos b ≠ 0` -/
+theorem euler_zyx_from_to (ca sa cb sb cc sc : α) (hcb : cb ≠ 0) :
+    eulerZYXFrom (eulerZYX ca sa cb sb cc sc) cb = (ca, sa, cb, sb, cc, sc) := by
+  simp only [eulerZYXFrom, eulerZYX, rotX, rotY, rotZ, M3.mul, Prod.mk.injEq]
+  refine ⟨?_, ?_, trivial, ?_, ?_, ?_⟩ <;> (try field_simp) <;> ring
+
+/-- … and the `cos b` it needs is the one determined by the matrix: `cos² b = R00² + R01²` -/
+theorem euler_zyx_cb_sq (ca sa cb sb cc sc : α) (ha : ca * ca + sa * sa = 1) :
+    cb * cb = (eulerZYX ca sa cb sb cc sc).a00 * (eulerZYX ca sa cb sb cc sc).a00 +
+      (eulerZYX ca sa cb sb cc sc).a01 * (eulerZYX ca sa cb sb cc sc).a01 := by
+  simp only [eulerZYX, rotX, rotY, rotZ, M3.mul]
+  linear_combination (-(cb * cb)) * ha
+
+end eulerRoundTrip
+
+example : eulerZYXFrom (eulerZYX (3/5 : Rat) (4/5) (5/13) (12/13) (8/17) (15/17)) (5/13) =
+    (3/5, 4/5, 5/13, 12/13, 8/17, 15/17) := by
+  simp only [eulerZYXFrom, eulerZYX, rotX, rotY, rotZ, M3.mul, Prod.mk.injEq]; norm_num
+-- a proper rotation that is not given as an Euler product: the cyclic permutation composed with a planar rotation
+example : (⟨3/5, -4/5, 0, 0, 0, -1, 4/5, 3/5, 0⟩ : M3 Rat).Proper ∧ (1 : Rat) ≠ 0 ∧
+    (1 : Rat) * 1 = (3/5) * (3/5) + (-4/5) * (-4/5) ∧
+    eulerZYXRoundTrip (⟨3/5, -4/5, 0, 0, 0, -1, 4/5, 3/5, 0⟩ : M3 Rat) 1 = ⟨3/5, -4/5, 0, 0, 0, -1, 4/5, 3/5, 0⟩ := by
+  simp only [M3.Proper, M3.Orthonormal, M3.tr, M3.mul, M3.id, M3.det, eulerZYXRoundTrip, eulerZYXFrom, eulerZYX,
+    rotX, rotY, rotZ, M3.mk.injEq]
+  norm_num
+
 example : eulerZYX (0 : Int) 1 1 0 1 0 = ⟨0, -1, 0, 1, 0, 0, 0, 0, 1⟩ := by decide
 example : eulerExtrinsic [(2, (3/5 : Rat), 4/5), (1, 5/13, 12/13), (0, 8/17, 15/17)] =
     eulerZYX (3/5) (4/5) (5/13) (12/13) (8/17) (15/17) := by decide +kernel
 example : (0 : Rat) < 5/13 ∧ (5/13 : Rat) * (5/13) + (12/13) * (12/13) = 1 := by decide +kernel
+
+/-! ## the `convention` string of `euler_to_rotationmatrix` -/
+section convention
+
+theorem axisOfChar_lt (c : Char) (a : Nat) (h : axisOfChar c = some a) : a < 3 := by
+  unfold axisOfChar at h
+  split at h
+  · cases h; omega
+  · split at h
+    · cases h; omega
+    · split at h
+      · cases h; omega
+      · cases h
+
+theorem mapM_axis_spec (cs : List Char) (axes : List Nat) (h : cs.mapM axisOfChar = some axes) :
+    axes.length = cs.length ∧ ∀ a ∈ axes, a < 3 := by
+  induction cs generalizing axes with
+  | nil => simp at h; subst h; simp
+  | cons c cs ih =>
+    simp only [List.mapM_cons, Option.bind_eq_bind, Option.bind_eq_some_iff] at h
+    obtain ⟨a, ha, rest, hr, hh⟩ := h
+    simp at hh
+    subst hh
+    obtain ⟨h1, h2⟩ := ih rest hr
+    refine ⟨by simp [h1], ?_⟩
+    intro x hx
+    rcases List.mem_cons.mp hx with rfl | hx
+    · exact axisOfChar_lt c _ ha
+    · exact h2 x hx
+
+theorem parseSeq_sound (cs : List Char) (intr : Bool) (axes : List Nat) (h : parseSeq cs = some (intr, axes)) :
+    1 ≤ cs.length ∧ cs.length ≤ 3 ∧ cs.mapM axisOfChar = some axes ∧ axes.length = cs.length ∧
+    (∀ a ∈ axes, a < 3) ∧ consecDistinct axes = true ∧
+    intr = cs.all (fun c => c = 'X' ∨ c = 'Y' ∨ c = 'Z') ∧
+    (intr = false → cs.all (fun c => c = 'x' ∨ c = 'y' ∨ c = 'z') = true) := by
+  unfold parseSeq at h
+  split at h
+  · cases h
+  · rename_i hlen
+    simp only at h
+    split at h
+    · cases h
+    · rename_i hcase
+      split at h
+      · cases h
+      · rename_i ax hax
+        split at h
+        · rename_i hd
+          simp only [Option.some.injEq, Prod.mk.injEq] at h
+          obtain ⟨h1, h2⟩ := h
+          subst h2
+          obtain ⟨l1, l2⟩ := mapM_axis_spec cs ax hax
+          refine ⟨by omega, by omega, hax, l1, l2, hd, h1.symm, ?_⟩
+          intro hf
+          rw [← h1] at hf
+          simp only [hf] at hcase
+          simp at hcase ⊢
+          intro x hx
+          have := hcase x hx
+          grind
+        · cases h
+
+theorem conventionDispatch_sound (conv : List Char) (n : Nat) (intr : Bool) (axes : List Nat)
+    (h : conventionDispatch conv n = some (intr, axes)) :
+    (n = 2 ∨ n = 3) ∧ n ≤ conv.length ∧ axes.length = n ∧ (conv.take n).mapM axisOfChar = some axes ∧
+    (∀ a ∈ axes, a < 3) ∧ consecDistinct axes = true ∧
+    intr = (conv.take n).all (fun c => c = 'X' ∨ c = 'Y' ∨ c = 'Z') ∧
+    (intr = false → (conv.take n).all (fun c => c = 'x' ∨ c = 'y' ∨ c = 'z') = true) := by
+  unfold conventionDispatch at h
+  split at h
+  · cases h
+  · rename_i hn1
+    split at h
+    · rename_i i ax hp
+      split at h
+      · rename_i hl
+        simp only [Option.some.injEq, Prod.mk.injEq] at h
+        obtain ⟨rfl, rfl⟩ := h
+        obtain ⟨p1, p2, p3, p4, p5, p6, p7, p8⟩ := parseSeq_sound _ _ _ hp
+        have hlt : (conv.take n).length = n := by omega
+        have : n ≤ conv.length := by
+          rw [List.length_take] at hlt; omega
+        refine ⟨by omega, this, hl, p3, p5, p6, p7, p8⟩
+      · cases h
+    · cases h
+
+theorem mapM_axis_none (cs : List Char) (c : Char) (hc : c ∈ cs) (hbad : axisOfChar c = none) :
+    cs.mapM axisOfChar = none := by
+  induction cs with
+  | nil => cases hc
+  | cons x xs ih =>
+    simp only [List.mapM_cons, Option.bind_eq_bind]
+    rcases List.mem_cons.mp hc with rfl | hx
+    · rw [hbad]; rfl
+    · rw [ih hx]
+      cases axisOfChar x <;> rfl
+
+/-- any letter other than `x y z X Y Z` among the letters used makes the call fail -/
+theorem conventionDispatch_bad_letter (conv : List Char) (n : Nat) (c : Char) (hc : c ∈ conv.take n)
+    (hbad : axisOfChar c = none) : conventionDispatch conv n = none := by
+  cases h : conventionDispatch conv n with
+  | none => rfl
+  | some r =>
+    obtain ⟨intr, axes⟩ := r
+    have := (conventionDispatch_sound conv n intr axes h).2.2.2.1
+    rw [mapM_axis_none _ c hc hbad] at this
+    cases this
+
+/-- the 24 three-letter conventions of scipy and what they mean: axes in the order of the letters,
+lower case extrinsic, upper case intrinsic; the rest of a longer string is ignored -/
+theorem conventionDispatch_table :
+    (["xyz", "xzy", "yxz", "yzx", "zxy", "zyx", "xyx", "xzx", "yxy", "yzy", "zxz", "zyz"].map
+      (fun s => conventionDispatch s.toList 3)) =
+      [some (false, [0, 1, 2]), some (false, [0, 2, 1]), some (false, [1, 0, 2]), some (false, [1, 2, 0]),
+       some (false, [2, 0, 1]), some (false, [2, 1, 0]), some (false, [0, 1, 0]), some (false, [0, 2, 0]),
+       some (false, [1, 0, 1]), some (false, [1, 2, 1]), some (false, [2, 0, 2]), some (false, [2, 1, 2])] ∧
+    (["XYZ", "XZY", "YXZ", "YZX", "ZXY", "ZYX", "XYX", "XZX", "YXY", "YZY", "ZXZ", "ZYZ"].map
+      (fun s => conventionDispatch s.toList 3)) =
+      [some (true, [0, 1, 2]), some (true, [0, 2, 1]), some (true, [1, 0, 2]), some (true, [1, 2, 0]),
+       some (true, [2, 0, 1]), some (true, [2, 1, 0]), some (true, [0, 1, 0]), some (true, [0, 2, 0]),
+       some (true, [1, 0, 1]), some (true, [1, 2, 1]), some (true, [2, 0, 2]), some (true, [2, 1, 2])] ∧
+    conventionDispatch "zyx".toList 2 = some (false, [2, 1]) ∧
+    conventionDispatch "zyxz".toList 3 = some (false, [2, 1, 0]) := by
+  decide +kernel
+
+/-- what is rejected (scipy's `ValueError`), as coded: a single angle (the code nests the tuple), no angle,
+more angles than letters, repeated consecutive axes, mixed case, other letters -/
+theorem conventionDispatch_rejects :
+    conventionDispatch "zyx".toList 1 = none ∧ conventionDispatch "zyx".toList 0 = none ∧
+    conventionDispatch "zyx".toList 4 = none ∧ conventionDispatch "zy".toList 3 = none ∧
+    conventionDispatch "zzx".toList 3 = none ∧ conventionDispatch "zyX".toList 3 = none ∧
+    conventionDispatch "zya".toList 3 = none ∧ conventionDispatch "".toList 3 = none := by
+  decide +kernel
+
+/-- whatever the accepted convention (indeed for every list of axes, both readings), unit `(cos, sin)`
+pairs give a proper rotation -/
+theorem convention_proper {α : Type} [CommRing α] (intr : Bool) (axes : List Nat) (cs : List (α × α))
+    (hu : ∀ p ∈ cs, p.1 * p.1 + p.2 * p.2 = 1) :
+    (if intr then eulerIntrinsic (axes.zip cs) else eulerExtrinsic (axes.zip cs)).Proper := by
+  have hz : ∀ r ∈ axes.zip cs, r.2.1 * r.2.1 + r.2.2 * r.2.2 = 1 := by
+    intro r hr
+    obtain ⟨a, p⟩ := r
+    exact hu p (List.of_mem_zip hr).2
+  split
+  · exact euler_intrinsic_proper _ hz
+  · exact euler_extrinsic_proper _ hz
+
+/-- the default convention `"zyx"` with three angles is `eulerZYX` -/
+theorem convention_default {α : Type} [CommRing α] (ca sa cb sb cc sc : α) :
+    conventionDispatch "zyx".toList 3 = some (false, [2, 1, 0]) ∧
+    eulerExtrinsic ([2, 1, 0].zip [(ca, sa), (cb, sb), (cc, sc)]) = eulerZYX ca sa cb sb cc sc := by
+  refine ⟨by decide +kernel, ?_⟩
+  rw [euler_zyx_eq_extrinsic]; rfl
+
+end convention
+
+example : axisOfChar 'a' = none ∧ 'a' ∈ "zya".toList.take 3 := by decide +kernel
+example : conventionDispatch "ZXZ".toList 3 = some (true, [2, 0, 2]) := by decide +kernel
+example : (eulerIntrinsic ([2, 0, 2].zip [((3/5 : Rat), (4/5 : Rat)), (5/13, 12/13), (8/17, 15/17)])).det = 1 := by
+  simp only [eulerIntrinsic, List.zip_cons_cons, List.zip_nil_right, List.foldl_cons, List.foldl_nil, axisRot, rotX, rotZ,
+    M3.mul, M3.id, M3.det]
+  norm_num
 
 /-! ## cone sampling -/
 section cone
@@ -336,9 +559,240 @@ theorem coneMatrices_length (coneAngle coneSampling axisAngle axisSampling : Flo
   simp only [this]
   rw [sum_map_const_nat, List.length_range]
 
+/-- the list of Euler triples has `number_of_points · phi_steps` entries -/
+theorem coneAngles_length (coneAngle coneSampling axisAngle axisSampling : Float) (nSym : Nat) :
+    (coneAngles coneAngle coneSampling axisAngle axisSampling nSym).length =
+      coneNumPoints coneAngle coneSampling * conePhiSteps axisAngle axisSampling nSym := by
+  have := coneMatrices_length coneAngle coneSampling axisAngle axisSampling nSym
+  simpa only [coneMatrices, List.length_map] using this
+
+/-- general axis: the same number of rotations -/
+theorem coneMatricesVec_length (coneAngle coneSampling axisAngle axisSampling : Float) (nSym : Nat)
+    (w : Float × Float × Float) :
+    (coneMatricesVec coneAngle coneSampling axisAngle axisSampling nSym w).length =
+      coneNumPoints coneAngle coneSampling * conePhiSteps axisAngle axisSampling nSym := by
+  simp only [coneMatricesVec, List.length_map, coneAngles_length]
+
+/-- composition law: every matrix returned is `V · R_zyx(a, b, φ')` with one and the same `V`, the
+aligning rotation of the axis -/
+theorem coneMatricesVec_form (coneAngle coneSampling axisAngle axisSampling : Float) (nSym : Nat)
+    (w : Float × Float × Float) :
+    ∀ M ∈ coneMatricesVec coneAngle coneSampling axisAngle axisSampling nSym w,
+      ∃ ca sa cb sb cc sc : Float, M = (alignRotF (1.0, 0.0, 0.0) w).mul (eulerZYX ca sa cb sb cc sc) := by
+  intro M hM
+  simp only [coneMatricesVec, List.mem_map] at hM
+  obtain ⟨⟨a, b, c⟩, -, rfl⟩ := hM
+  exact ⟨_, _, _, _, _, _, rfl⟩
+
+-- examples for the rotation group law / quaternion link: quarter turn about z twice = half turn; half-angle pair (3/5, 4/5)
+example : (rodrigues ((0 : Int), (0 : Int), (1 : Int)) 0 1).mul (rodrigues (0, 0, 1) 0 1) = rodrigues (0, 0, 1) (-1) 0 := by decide
+example : dot3 ((0 : Int), (0 : Int), (1 : Int)) (0, 0, 1) = 1 := by decide
+example : (3/5 : Rat) * (3/5) + (4/5) * (4/5) = 1 := by norm_num
+example : rodrigues ((0 : Rat), (0 : Rat), (1 : Rat)) ((3/5) * (3/5) - (4/5) * (4/5)) (2 * (3/5) * (4/5)) =
+    quatToMat 2 ⟨3/5, (4/5) * 0, (4/5) * 0, (4/5) * 1⟩ := by
+  simp only [rodrigues, M3.add, M3.smul, M3.id, skew, M3.mul, quatToMat, M3.mk.injEq]; norm_num
+
 example : ((rotZ (0 : Int) 1).tr.mul (rotZ 0 1) = M3.id) ∧
     dot3 (((rotZ (0 : Int) 1).mul (eulerZYX 1 0 0 1 1 0)).mulVec (1, 0, 0)) ((rotZ 0 1).mulVec (1, 0, 0)) = 0 := by
   decide
+
+/-! ## `rotation_aligning_vectors` (Rodrigues form `1 + sin·K + (1 - cos)·K²`, `K` the cross-product
+matrix of the normalised axis `u × v / ‖u × v‖`) -/
+section align
+variable {α : Type} [CommRing α]
+
+/-- Lagrange's identity: `‖u × v‖² = ‖u‖²‖v‖² − (u·v)²` — for unit vectors the norm of the axis is the
+sine of the angle whose cosine is `u·v` -/
+theorem cross3_lagrange (u v : α × α × α) :
+    dot3 (cross3 u v) (cross3 u v) = dot3 u u * dot3 v v - dot3 u v * dot3 u v := by
+  simp only [dot3, cross3]; ring
+
+/-- the axis is orthogonal to both vectors -/
+theorem cross3_orthogonal (u v : α × α × α) :
+    dot3 (cross3 u v) u = 0 ∧ dot3 (cross3 u v) v = 0 := by
+  simp only [dot3, cross3]; constructor <;> ring
+
+/-- parallel *and antiparallel* vectors (`v = t·u`, any `t`) have the zero axis: for `t < 0` the code is
+not in its `allclose` branch, divides `0 / 0` and returns a matrix of NaN (reproduced by the driver and
+the real function on every run; recorded, not part of the property) -/
+theorem cross3_parallel_zero (u : α × α × α) (t : α) :
+    cross3 u (t * u.1, t * u.2.1, t * u.2.2) = (0, 0, 0) := by
+  simp only [cross3, Prod.mk.injEq]; and_intros <;> ring
+
+/-- `K w = k × w` -/
+theorem skew_mulVec (k w : α × α × α) : (skew k).mulVec w = cross3 k w := by
+  simp only [skew, M3.mulVec, cross3, Prod.mk.injEq]; and_intros <;> ring
+
+/-- angle zero gives the identity whatever the axis (consistent with the `allclose` branch) -/
+theorem rodrigues_identity (k : α × α × α) : rodrigues k 1 0 = M3.id := by
+  simp only [rodrigues, M3.add, M3.smul, M3.id, skew, M3.mul, M3.mk.injEq]; and_intros <;> ring
+
+/-- the axis is fixed, for every axis and every `(c, s)` -/
+theorem rodrigues_fixes_axis (k : α × α × α) (c s : α) : (rodrigues k c s).mulVec k = k := by
+  obtain ⟨k0, k1, k2⟩ := k
+  simp only [rodrigues, M3.add, M3.smul, M3.id, skew, M3.mul, M3.mulVec, Prod.mk.injEq]; and_intros <;> ring
+
+/-- a multiple of the axis is fixed -/
+theorem rodrigues_fixes_scaled (k : α × α × α) (c s t : α) :
+    (rodrigues k c s).mulVec (t * k.1, t * k.2.1, t * k.2.2) = (t * k.1, t * k.2.1, t * k.2.2) := by
+  obtain ⟨k0, k1, k2⟩ := k
+  simp only [rodrigues, M3.add, M3.smul, M3.id, skew, M3.mul, M3.mulVec, Prod.mk.injEq]; and_intros <;> ring
+
+/-- trace `= 1 + 2 cos(angle)`: the rotation angle is the one whose cosine went in -/
+theorem rodrigues_trace (k : α × α × α) (c s : α) (hk : dot3 k k = 1) :
+    (rodrigues k c s).a00 + (rodrigues k c s).a11 + (rodrigues k c s).a22 = 1 + 2 * c := by
+  obtain ⟨k0, k1, k2⟩ := k
+  simp only [dot3] at hk
+  simp only [rodrigues, M3.add, M3.smul, M3.id, skew, M3.mul]
+  linear_combination (-2 * (1 - c)) * hk
+
+/-- Rodrigues' matrix of a unit axis and a unit `(cos, sin)` pair is a proper rotation -/
+theorem rodrigues_proper (k : α × α × α) (c s : α) (hk : dot3 k k = 1) (hcs : c * c + s * s = 1) :
+    (rodrigues k c s).Proper := by
+  obtain ⟨k0, k1, k2⟩ := k
+  simp only [dot3] at hk
+  simp only [M3.Proper, M3.Orthonormal, rodrigues, M3.add, M3.smul, M3.id, skew, M3.mul, M3.tr, M3.det, M3.mk.injEq]
+  and_intros <;> grind
+
+/-- the inverse rotation is the one with the opposite sine (= the transpose) -/
+theorem rodrigues_tr (k : α × α × α) (c s : α) : (rodrigues k c s).tr = rodrigues k c (-s) := by
+  simp only [rodrigues, M3.add, M3.smul, M3.id, skew, M3.mul, M3.tr, M3.mk.injEq]; and_intros <;> ring
+
+/-- rotations about one axis compose by adding the angles -/
+theorem rodrigues_mul (k : α × α × α) (c₁ s₁ c₂ s₂ : α) (hk : dot3 k k = 1) :
+    (rodrigues k c₁ s₁).mul (rodrigues k c₂ s₂) = rodrigues k (c₁ * c₂ - s₁ * s₂) (s₁ * c₂ + c₁ * s₂) := by
+  obtain ⟨k0, k1, k2⟩ := k
+  simp only [dot3] at hk
+  simp only [rodrigues, M3.add, M3.smul, M3.id, skew, M3.mul, M3.mk.injEq]
+  and_intros <;> grind
+
+/-- the opposite axis with the same angle is the inverse rotation -/
+theorem rodrigues_neg_axis (k : α × α × α) (c s : α) :
+    rodrigues (-k.1, -k.2.1, -k.2.2) c s = (rodrigues k c s).tr := by
+  simp only [rodrigues, M3.add, M3.smul, M3.id, skew, M3.mul, M3.tr, M3.mk.injEq]; and_intros <;> ring
+
+theorem cross3_swap (u v : α × α × α) :
+    cross3 v u = (-(cross3 u v).1, -(cross3 u v).2.1, -(cross3 u v).2.2) := by
+  simp only [cross3, Prod.mk.injEq]; and_intros <;> ring
+
+/-- Rodrigues' matrix is the matrix of the quaternion `(cos θ/2, sin θ/2 · k)` under the code's own
+quaternion convention -/
+theorem rodrigues_eq_quat (k : α × α × α) (ch sh : α) (hk : dot3 k k = 1) (hh : ch * ch + sh * sh = 1) :
+    rodrigues k (ch * ch - sh * sh) (2 * ch * sh) = quatToMat 2 ⟨ch, sh * k.1, sh * k.2.1, sh * k.2.2⟩ := by
+  obtain ⟨k0, k1, k2⟩ := k
+  simp only [dot3] at hk
+  simp only [rodrigues, M3.add, M3.smul, M3.id, skew, M3.mul, quatToMat, M3.mk.injEq]
+  and_intros <;> grind
+/-- division-free core of the alignment (any commutative ring): with `a = u × v` and `‖u‖ = 1`,
+`‖a‖²·1 + ‖a‖²·[a]ₓ + (1 − u·v)·[a]ₓ²` maps `u` to `‖a‖²·v` -/
+theorem rodrigues_cross_maps (u v : α × α × α) (hu : dot3 u u = 1) :
+    M3.mulVec (((M3.smul (dot3 (cross3 u v) (cross3 u v)) M3.id).add
+        (M3.smul (dot3 (cross3 u v) (cross3 u v)) (skew (cross3 u v)))).add
+      (M3.smul (1 - dot3 u v) ((skew (cross3 u v)).mul (skew (cross3 u v))))) u
+      = (dot3 (cross3 u v) (cross3 u v) * v.1, dot3 (cross3 u v) (cross3 u v) * v.2.1,
+         dot3 (cross3 u v) (cross3 u v) * v.2.2) := by
+  obtain ⟨u0, u1, u2⟩ := u
+  obtain ⟨v0, v1, v2⟩ := v
+  simp only [dot3] at hu
+  simp only [dot3, cross3, skew, M3.smul, M3.add, M3.mul, M3.id, M3.mulVec, Prod.mk.injEq]
+  refine ⟨?_, ?_, ?_⟩
+  · linear_combination (((u1 * v2 - u2 * v1) * (u1 * v2 - u2 * v1) + (u2 * v0 - u0 * v2) * (u2 * v0 - u0 * v2) +
+          (u0 * v1 - u1 * v0) * (u0 * v1 - u1 * v0)) * v0) * hu
+  · linear_combination (((u1 * v2 - u2 * v1) * (u1 * v2 - u2 * v1) + (u2 * v0 - u0 * v2) * (u2 * v0 - u0 * v2) +
+          (u0 * v1 - u1 * v0) * (u0 * v1 - u1 * v0)) * v1) * hu
+  · linear_combination (((u1 * v2 - u2 * v1) * (u1 * v2 - u2 * v1) + (u2 * v0 - u0 * v2) * (u2 * v0 - u0 * v2) +
+          (u0 * v1 - u1 * v0) * (u0 * v1 - u1 * v0)) * v2) * hu
+
+end align
+
+section alignField
+variable {α : Type} [Field α]
+
+/-- `k = (u × v) / n` is a unit vector when `n² = ‖u × v‖²`, `n ≠ 0` -/
+theorem alignRot_axis_unit (u v : α × α × α) (n : α) (hn : n ≠ 0)
+    (hnn : n * n = dot3 (cross3 u v) (cross3 u v)) :
+    dot3 ((cross3 u v).1 / n, (cross3 u v).2.1 / n, (cross3 u v).2.2 / n)
+         ((cross3 u v).1 / n, (cross3 u v).2.1 / n, (cross3 u v).2.2 / n) = 1 := by
+  simp only [dot3] at hnn ⊢
+  field_simp
+  linear_combination -hnn
+
+/-- the matrix of the non-trivial branch is a proper rotation for every pair of vectors with a
+non-zero axis and every unit `(cos, sin)` pair -/
+theorem alignRot_proper (u v : α × α × α) (n c s : α) (hn : n ≠ 0)
+    (hnn : n * n = dot3 (cross3 u v) (cross3 u v)) (hcs : c * c + s * s = 1) :
+    (alignRot u v n c s).Proper :=
+  rodrigues_proper _ c s (alignRot_axis_unit u v n hn hnn) hcs
+
+/-- … and with `cos = u·v`, `sin = ‖u × v‖` (the values of `cos(arccos(u·v))`, `sin(arccos(u·v))` for unit
+vectors, by `cross3_lagrange`) it maps the normalised initial vector onto the normalised target -/
+theorem alignRot_maps (u v : α × α × α) (n : α) (hu : dot3 u u = 1) (hn : n ≠ 0)
+    (hnn : n * n = dot3 (cross3 u v) (cross3 u v)) :
+    (alignRot u v n (dot3 u v) n).mulVec u = v := by
+  obtain ⟨u0, u1, u2⟩ := u
+  obtain ⟨v0, v1, v2⟩ := v
+  simp only [dot3, cross3] at hu hnn
+  simp only [alignRot, rodrigues, dot3, cross3, skew, M3.smul, M3.add, M3.mul, M3.id, M3.mulVec, Prod.mk.injEq]
+  refine ⟨?_, ?_, ?_⟩ <;> (field_simp; grind)
+
+/-- the axis `u × v` itself is fixed -/
+theorem alignRot_fixes_axis (u v : α × α × α) (n c s : α) (hn : n ≠ 0) :
+    (alignRot u v n c s).mulVec (cross3 u v) = cross3 u v := by
+  simp only [alignRot]
+  generalize cross3 u v = a
+  obtain ⟨a0, a1, a2⟩ := a
+  have e0 : n * (a0 / n) = a0 := by field_simp
+  have e1 : n * (a1 / n) = a1 := by field_simp
+  have e2 : n * (a2 / n) = a2 := by field_simp
+  have h := rodrigues_fixes_scaled (a0 / n, a1 / n, a2 / n) c s n
+  simp only [e0, e1, e2] at h
+  exact h
+
+/-- exchanging the two vectors gives the inverse (transposed) rotation -/
+theorem alignRot_swap (u v : α × α × α) (n c s : α) :
+    alignRot v u n c s = (alignRot u v n c s).tr := by
+  simp only [alignRot]
+  rw [← rodrigues_neg_axis, cross3_swap]
+  simp only [neg_div]
+/-- `rotation_aligning_vectors`, non-trivial branch, in one statement: for unit `u`, `v` that are
+neither parallel nor antiparallel (`n = ‖u × v‖ ≠ 0`) the result is a proper rotation, takes `u` to `v`,
+fixes the axis `u × v` and has trace `1 + 2 u·v` (it is the rotation by the angle between the vectors) -/
+theorem alignRot_spec (u v : α × α × α) (n : α) (hu : dot3 u u = 1) (hv : dot3 v v = 1) (hn : n ≠ 0)
+    (hnn : n * n = dot3 (cross3 u v) (cross3 u v)) :
+    let R := alignRot u v n (dot3 u v) n
+    R.Proper ∧ R.mulVec u = v ∧ R.mulVec (cross3 u v) = cross3 u v ∧ R.a00 + R.a11 + R.a22 = 1 + 2 * dot3 u v := by
+  have hcs : dot3 u v * dot3 u v + n * n = 1 := by
+    rw [hnn, cross3_lagrange, hu, hv]; ring
+  have hk := alignRot_axis_unit u v n hn hnn
+  exact ⟨alignRot_proper u v n _ _ hn hnn hcs, alignRot_maps u v n hu hn hnn, alignRot_fixes_axis u v n _ _ hn,
+    rodrigues_trace _ _ _ hk⟩
+/-- `get_rotations_around_vector` for a general axis: `V` (the aligning rotation) composed with a cone
+sample `R_zyx(a, b, φ)` is a proper rotation and keeps `V e₀` within `cos a · cos b` of the cone axis -/
+theorem cone_general_proper (u v : α × α × α) (n : α) (hu : dot3 u u = 1) (hv : dot3 v v = 1) (hn : n ≠ 0)
+    (hnn : n * n = dot3 (cross3 u v) (cross3 u v)) (ca sa cb sb cc sc : α) (ha : ca * ca + sa * sa = 1)
+    (hb : cb * cb + sb * sb = 1) (hc : cc * cc + sc * sc = 1) :
+    let V := alignRot u v n (dot3 u v) n
+    (V.mul (eulerZYX ca sa cb sb cc sc)).Proper ∧
+      dot3 ((V.mul (eulerZYX ca sa cb sb cc sc)).mulVec (1, 0, 0)) (V.mulVec (1, 0, 0)) = ca * cb := by
+  have hV := (alignRot_spec u v n hu hv hn hnn).1
+  exact ⟨cone_proper _ hV ca sa cb sb cc sc ha hb hc, cone_axis_inside _ hV.1.1 ca sa cb sb cc sc⟩
+
+end alignField
+
+-- u = e₀, v = (3/5, 4/5, 0): axis (0, 0, 4/5), n = 4/5; the result is the rotation about z with cos 3/5, sin 4/5
+example : dot3 ((1 : Rat), (0 : Rat), (0 : Rat)) (1, 0, 0) = 1 ∧ dot3 ((3/5 : Rat), (4/5 : Rat), (0 : Rat)) (3/5, 4/5, 0) = 1 ∧
+    (4/5 : Rat) ≠ 0 ∧ (4/5 : Rat) * (4/5) = dot3 (cross3 ((1 : Rat), (0 : Rat), (0 : Rat)) (3/5, 4/5, 0)) (cross3 (1, 0, 0) (3/5, 4/5, 0)) := by
+  decide +kernel
+example : alignRot ((1 : Rat), (0 : Rat), (0 : Rat)) (3/5, 4/5, 0) (4/5) (3/5) (4/5) = rotZ (3/5) (4/5) := by
+  simp only [alignRot, rodrigues, cross3, skew, M3.add, M3.smul, M3.mul, M3.id, rotZ, M3.mk.injEq]; norm_num
+-- u = (2/3, 1/3, 2/3), v = (3/5, 4/5, 0): u·v = 2/3, ‖u × v‖² = 5/9 is not a square in ℚ; the matrix with
+-- n² = 5/9 replaced by its value still maps u to v (division-free form)
+example : dot3 ((2/3 : Rat), (1/3 : Rat), (2/3 : Rat)) (2/3, 1/3, 2/3) = 1 ∧
+    dot3 (cross3 ((2/3 : Rat), (1/3 : Rat), (2/3 : Rat)) (3/5, 4/5, 0)) (cross3 (2/3, 1/3, 2/3) (3/5, 4/5, 0)) = 5/9 := by
+  simp only [dot3, cross3]; norm_num
+example : rodrigues ((0 : Int), (0 : Int), (1 : Int)) 0 1 = ⟨0, -1, 0, 1, 0, 0, 0, 0, 1⟩ := by decide
+-- antiparallel: the axis vanishes
+example : cross3 ((1 : Int), (2 : Int), (3 : Int)) (-1, -2, -3) = (0, 0, 0) := by decide
 
 /-! ## 2×2 input of `euler_from_rotationmatrix` (the matrix is embedded as the upper-left block) -/
 section planar
